@@ -99,6 +99,10 @@ def run(repo: Repo, rep: Report, tier: str) -> None:
     from ..lints import decoder_loops_complete
     rep.rule("decoder-complete", "every item loop of the codec hands on each item it frames")
     rep.floor("codec item loops", decoder_loops_complete(repo, rep, "decoder-complete", None), 6)
+    from ..lints import item_generators_exhaustive, no_memoised_state
+    rep.floor("item generators evaluated", item_generators_exhaustive(repo, rep, "decoder-complete"), 4)
+    rep.rule("derived-live", "no member of a PDU / item / primitive class is memoised: the lookups over variable_items are recomputed from the fields decode() / from_primitive() assign")
+    rep.floor("codec members examined for memoisation", no_memoised_state(repo, rep, "derived-live", ("pdu", "pdu_items", "pdu_primitives"), "a PDU object read once before decode() / from_primitive() fills it (or decoded into twice) keeps answering with the first value - to_primitive() hands on a stale or missing Application Context Name, presentation contexts or user information although the encoded bytes are right, so the primitive -> PDU -> bytes -> primitive round trip loses parameters"), 100)
     rep.rule("layout", "field sequence of _encoders == PS3.8/PS3.7 table (kind, width, reserved value, attribute order, big-endian)")
     rep.rule("length", "pdu_length / item_length / sub-length properties == sum of the widths of what follows, on every path")
     rep.rule("header", "__len__ adds exactly the bytes up to and including the length field")
